@@ -3,17 +3,22 @@
 #![allow(dead_code, unused_imports)]
 use super::*;
 
-/// partitions currently assigned to member `id` (None if not a member), in index order 0..len
-pub fn member_partitions(g: &ConsumerGroup, id: u32) -> Option<Vec<u32>> {
+/// partitions currently assigned to member `id` in index order 0..len, as a fixed array + length
+/// (a Vec of symbolic length would make CBMC allocate symbolic-size objects)
+pub fn member_partitions(g: &ConsumerGroup, id: u32) -> Option<([u32; 8], usize)> {
     let m = g.members.get(&id)?;
     let m = m.try_read().unwrap();
-    let mut v = Vec::new();
-    let mut i = 0u32;
-    while (i as usize) < m.partitions.len() {
-        v.push(*m.partitions.get(&i).expect("member partition indices must be 0..len"));
+    let n = m.partitions.len();
+    assert!(n <= 8);
+    let mut v = [0u32; 8];
+    let mut i = 0usize;
+    while i < 8 {
+        if i < n {
+            v[i] = *m.partitions.get(&(i as u32)).expect("member partition indices must be 0..len");
+        }
         i += 1;
     }
-    Some(v)
+    Some((v, n))
 }
 pub fn member_cursor(g: &ConsumerGroup, id: u32) -> (Option<u32>, Option<u32>) {
     let m = g.members.get(&id).unwrap();
